@@ -108,7 +108,7 @@ func permutations(n int) [][]int {
 
 func checkC03(c *Ctx) {
 	c.rule = "small files over all recipient mixes (1-5 stanzas: X25519, ssh-ed25519, ssh-rsa, grease, or a single passphrase stanza): EVERY single-bit flip of the header bytes (exhaustive); structural edits of the parsed header: per-field substitutions (type, each argument, body byte, body length +-1/+-48), insertion of grease and of attacker-made stanzas (a fresh key wrapped to the identity's own recipient, without and with a recomputed MAC) at every position, deletion, duplication, ALL permutations of the stanzas, MAC replaced by random / by another file's MAC. Each altered file is decrypted with every identity able to open the original. distinct_nontrivial = distinct (altered file, identity) pairs."
-	n := c.vol(5, 60)
+	n := c.vol(5, 30)
 	var otherMAC []byte
 	for i := 0; i < n; i++ {
 		sc := &scenario{plain: c.rng.bytes(20), tape: c.rng.bytes(400)}
